@@ -8,7 +8,7 @@ ops:
      -> {"coarse":[…strings…],"fine":N}            the driver's file operations of an uninterrupted run from an empty odir
  {"op":"sim","proto":…,"n":3,"r0":false,"kills":[k1,k2,…]}
      -> {"stages":[{"nops":N,"from":i,"pos":{"coarse":c,"off":j,"len":L}|"end","files":{…}}…],
-         "final":{"ok":true,"from":i,"updates":n-i,"state":n,"files":{…}} | {"ok":false,"error":"unpickle"}}
+         "final":{"ok":true,"from":i,"updates":n-i,"state":n,"coarse":[…],"files":{…}} | {"ok":false,"error":"unpickle"}}
      run 1 (resume=r0) from the empty odir is killed after k1 fine operations, run 2 (resume=true) after k2, …; then a
      run with resume=true that is not killed.  State = iteration counter (natSys).
 -/
@@ -28,10 +28,11 @@ def fileStatus (b : Option Bytes) : String :=
     | some i => s!"complete:{i}"
     | none => s!"partial:{x}"
 
+/-- the message of state `i` is `[i, 10]`; a byte not followed by 10 is the partial message of a killed write -/
 def sanityTokens : Bytes → List String
   | [] => []
-  | [_] => ["~"]
-  | i :: _ :: r => toString i :: sanityTokens r
+  | i :: 10 :: r => toString i :: sanityTokens r
+  | _ :: r => "~" :: sanityTokens r
 
 def filesJson (fs : FS Path) : Json :=
   jObj [("last.pkl", Json.str (fileStatus (fs .last))), ("last.pkl.tmp", Json.str (fileStatus (fs .tmp))),
@@ -67,13 +68,14 @@ partial def simStages (proto : Proto) (n : Nat) (resume : Bool) (fs : FS Path) (
     match run natSys proto true 0 n fs, loadedFrom true fs with
     | .ok (ops, sf), .ok i =>
         (acc, jObj [("ok", Json.bool true), ("from", jNat i), ("updates", jNat (n - i)), ("state", jNat sf),
-                    ("files", filesJson (execs fs ops))])
+                    ("coarse", jList Json.str (coarse Path.name ops)), ("files", filesJson (execs fs ops))])
     | _, _ => (acc, jObj [("ok", Json.bool false), ("error", Json.str "unpickle")])
   | k :: rest =>
     match run natSys proto resume 0 n fs, loadedFrom resume fs with
     | .ok (ops, _), .ok i =>
         let fs' := crash fs ops k
-        let st := jObj [("nops", jNat ops.length), ("from", jNat i), ("pos", posJson ops k), ("files", filesJson fs')]
+        let st := jObj [("nops", jNat ops.length), ("from", jNat i), ("pos", posJson ops k), ("files", filesJson fs'),
+                        ("coarse", jList Json.str (coarse Path.name (ops.take k)))]
         simStages proto n true fs' rest (acc ++ [st])
     | _, _ => (acc ++ [jObj [("error", Json.str "unpickle")]], jObj [("ok", Json.bool false), ("error", Json.str "unpickle")])
 
